@@ -7,6 +7,7 @@ export RUSTFLAGS="--cfg ark_bulletproofs_verif -A unexpected_cfgs -A warnings"
 export CARGO_TARGET_DIR=/verif/harness/target
 mkdir -p work evidence replays
 cp /repo/Cargo.lock harness/Cargo.lock 2>/dev/null || true
+python3 tools/gen_zorro_consts.py || true
 ( cd coq && coq_makefile -f _CoqProject -o Makefile >/dev/null && timeout 7000 make -j16 2>&1 | grep -v "^Closed under\|^COQ" | tail -20 )
 ( cd harness && cargo build --release --offline 2>&1 | tail -3 )
 test -x harness/target/release/bpharness
